@@ -13,7 +13,13 @@ pub fn document(
     document: dom::XmlDocument,
     context: &mut model::Context,
 ) -> error::Result<model::Value> {
-    eval_expr(expr, document.as_node(), context)
+    // The context of the whole expression: the document node, position 1 of 1.
+    context.push_size(1);
+    context.push_position(1);
+    let value = eval_expr(expr, document.as_node(), context);
+    context.pop_position();
+    context.pop_size();
+    value
 }
 
 // -----------------------------------------------------------------------------------------------
